@@ -356,13 +356,14 @@ def run(ctx):
         if b is None:
             continue
         eb = ExprBuilder(b)
+        loop_ranges = []
         exprs = [eb.call(t) for bb, t in b.calls()]
         txt = " ".join(show(e) for e in exprs)
         names = [x[1].rsplit("::", 1)[-1] for e in exprs for x in walk(e) if x[0] == "call"]
         badn = [n for n in names if n in ("skip", "take", "step_by", "filter", "rev", "skip_while", "take_while", "filter_map", "nth", "last", "chain")]
         if "flat_map" in names and "self.labels" in txt and not badn:
             ctx.ok("C01-R4", "%s: flat_map over self.labels.iter(), no dropping adaptor" % fn.split("::")[-1], b.loc())
-        elif _label_loop_form(b, eb) and not badn:
+        elif _label_loop_form(b, eb, loop_ranges) and not badn and (inner or not loop_ranges):
             ctx.ok("C01-R4", "%s: `for label in self.labels` loop that appends to the result unconditionally on every iteration" % fn.split("::")[-1], b.loc())
         else:
             ctx.fail("C01-R4", fn, "label pipeline", "labels are not mapped one-to-one (adaptors: %s)" % sorted(set(names)), b.loc())
@@ -381,6 +382,16 @@ def run(ctx):
                 sub = [x[1].rsplit("::", 1)[-1] for bb, t in cb.calls() for x in walk(ceb.call(t)) if x[0] == "call"]
                 if any(n in ("skip", "take", "step_by", "filter", "rev") for n in sub):
                     okk = False
+            # loop form: the state loop is the inner `for` around the push
+            nst = p.body("model::Models::<'a>::nstate")
+            nstate_is_count = nst is not None and show(ExprBuilder(nst).local(0)).endswith(".num_states")
+            for g in loop_ranges:
+                r_ = g[1][2][0] if g[1][2] else None
+                if r_ is not None and r_[0] == "agg" and r_[1].endswith("Range::Range"):
+                    lo, hi = to_poly(r_[2][0]), to_poly(r_[2][1])
+                    d = hi - lo
+                    if lo == Poly.const(2) and len(d.t) == 1 and list(d.t.values()) == [1] and ("num_states" in repr(d) or (nstate_is_count and "Models::<'a>::nstate" in repr(d))):
+                        okk = True
             if okk:
                 ctx.ok("C01-R4", "stream(): states 2 .. 2 + num_states for every label", b.loc())
             else:
@@ -590,7 +601,7 @@ def odd_lpf(ctx, p, site):
 
 
 
-def _label_loop_form(b, eb):
+def _label_loop_form(b, eb, ranges=None):
     """the loop form of `labels.iter().flat_map(..).collect()`: one loop whose iterator is a plain
     traversal of self.labels; in it, an extend/push on the vector that is returned, guarded by
     nothing but the loop's own `Some`"""
@@ -598,6 +609,20 @@ def _label_loop_form(b, eb):
     for d in b.defs().get(0, []):
         if d[1] != "term" and d[2]["rv"]["k"] == "use" and d[2]["rv"]["op"].get("k") in ("move", "copy") and not d[2]["rv"]["op"]["place"]["proj"]:
             ret = d[2]["rv"]["op"]["place"]["local"]
+    if ret is None:
+        # the vector may be wrapped on return: StreamParameter::new(vec)
+        for d in b.defs().get(0, []):
+            if d[1] == "term" and d[2]["callee"]["k"] == "fndef" and cm.callee_name(d[2]["callee"]).endswith("::new") and len(d[2]["args"]) == 1 \
+                    and d[2]["args"][0].get("k") in ("move", "copy") and not d[2]["args"][0]["place"]["proj"]:
+                ret = d[2]["args"][0]["place"]["local"]
+                n_ = 0
+                while n_ < 4:
+                    ds_ = [x for x in b.defs().get(ret, []) if not b.is_cleanup(x[0])]
+                    if len(ds_) == 1 and ds_[0][1] != "term" and ds_[0][2]["rv"]["k"] == "use" and ds_[0][2]["rv"]["op"].get("k") in ("move", "copy") and not ds_[0][2]["rv"]["op"]["place"]["proj"]:
+                        ret = ds_[0][2]["rv"]["op"]["place"]["local"]
+                        n_ += 1
+                    else:
+                        break
     if ret is None:
         return False
     loops = b.natural_loops()
@@ -614,8 +639,13 @@ def _label_loop_form(b, eb):
         if not base or base[0] != ret:
             continue
         gs = paths.guards(b, bb, eb)
-        if len(gs) == 1 and gs[0][0] == "some" and re.match(r"^<std::slice::Iter<'a, T> as std::iter::Iterator>::next\(self\.labels\)$", show(gs[0][1])):
+        lab = [g for g in gs if g[0] == "some" and re.match(r"^<std::slice::Iter<'a, T> as std::iter::Iterator>::next\(self\.labels\)$", show(g[1]))]
+        # an inner `for state in a..b` around the push is the per-label state loop (judged by the caller)
+        rng = [g for g in gs if g[0] == "some" and g[1][0] == "call" and "ops::Range<A>>::next" in g[1][1]]
+        if len(lab) == 1 and len(lab) + len(rng) == len(gs) and len(rng) <= 1:
             okk = True
+            if ranges is not None:
+                ranges.extend(rng)
     return okk
 
 
@@ -645,7 +675,7 @@ FDIV_T2F = [
     # (enclosing function - the site may sit in it or in any closure nested in it, shape regex, reason)
     ("duration::DurationEstimator::create", r"^speed$",
      "speed >= 1e-6: set_speed stores max(v, 1e-6) (C20-R1) and the default is 1"),
-    ("duration::DurationEstimator::estimate_duration_with_frame_length", r"Iterator::sum\(duration_params\)\.1$|^%\d+$|^arg\d(\.\d)*\.1$",
+    ("duration::DurationEstimator::estimate_duration_with_frame_length", r"Iterator::sum\(duration_params\)\.1$|^%\d+$|^arg\d(\.\d)*\.1$|^\(<.*Iterator>::next\(.*duration_params.*\) as Some\)(\.\d)*\.1$",
      "a duration variance (of one state, or summed over the group); ASSUMPTION (voice-format fact): duration variances of a voice are positive"),
     ("label::Labels::load_from_strings", r"^Mul\(\(fperiod as f64\), 10000000\.0\)$",
      "fperiod >= 1 (C20-R1), so the divisor is >= 1e7"),
@@ -749,7 +779,7 @@ def r8(ctx, p, cg, K):
                 if _positive_guard_f(paths.guards(b, bb, eb), ds):
                     ctx.ok("C01-R8", "T1 %s: division by %s is dominated by a test that it is non-zero" % (cm.short(path), ds[:60]), loc)
                     continue
-                site = ledger.Site("fdiv", path, ds[:300], "", st["span"], bb, st, b)
+                site = ledger.Site("fdiv", path, ds[:3000], "", st["span"], bb, st, b)
                 ent = None
                 encf = b
                 nf_ = 0
